@@ -40,6 +40,12 @@ def roleOf : HK → Role
   | .received => .reader
   | .view _ _ _ => .reader
 
+@[simp] theorem roleOf_created (a : Nat) (b : Option Nat) : roleOf (.created a b) = .creator := rfl
+@[simp] theorem roleOf_fut (a b c : Nat) (d : Bool) : roleOf (.fut a b c d) = .fut := rfl
+@[simp] theorem roleOf_sendable : roleOf .sendable = .tx := rfl
+@[simp] theorem roleOf_received : roleOf .received = .reader := rfl
+@[simp] theorem roleOf_view (a b c : Nat) : roleOf (.view a b c) = .reader := rfl
+
 /-- Claim carried by the program counter alone (no handle exists yet / at all):
     `alloc_frame` between the successful `None → Created` compare-exchange and the construction of the
     `CreatedFrame`; `receive_frame` between `claim_receiving` and `mark_received`. -/
@@ -107,17 +113,16 @@ def tcount (t : Thread) (k : Nat) (ρ : Role) : Nat := pcount t.pc k ρ + hcount
 def wcount (ts : List Thread) (k : Nat) (ρ : Role) : Nat := (ts.map (fun t => tcount t k ρ)).sum
 
 /-- How many claims of each role a slot in state `st` admits. -/
-def cap : St → Role → Nat
-  | .created, .creator => 1
-  | .sendable, .fut => 1
-  | .sending, .fut => 1
-  | .sending, .tx => 1
-  | .sent, .fut => 1
-  | .rxBusy, .fut => 1
-  | .rxBusy, .rx => 1
-  | .rxDone, .fut => 1
-  | .rxProcessing, .reader => 1
-  | _, _ => 0
+def cap (st : St) (ρ : Role) : Nat :=
+  match st with
+  | .none => 0
+  | .created => if ρ = .creator then 1 else 0
+  | .sendable => if ρ = .fut then 1 else 0
+  | .sending => if ρ = .fut ∨ ρ = .tx then 1 else 0
+  | .sent => if ρ = .fut then 1 else 0
+  | .rxBusy => if ρ = .fut ∨ ρ = .rx then 1 else 0
+  | .rxDone => if ρ = .fut then 1 else 0
+  | .rxProcessing => if ρ = .reader then 1 else 0
 
 /-- While an operation is in progress, the register it works on holds a handle of the role it needs
     (registers are thread-local; `begin` checked the kind), and `alloc_frame`'s candidate index is in
@@ -209,8 +214,8 @@ theorem hcount_delH_some {hs : List Hd} (hr : Regs hs) {r : Nat} {h : Hd} (e : g
         exact delH_of_none hnone
       rw [this, hcount_cons]
     · have e' : getH xs r = some h := by
-        simp only [getH, List.find?_cons] at e
-        simpa [hx] using e
+        have hb : (x.reg == r) = false := by simpa using hx
+        simpa [getH, List.find?_cons, hb] using e
       have : delH (x :: xs) r = x :: delH xs r := by
         simp only [delH, List.filter_cons]
         simp [hx]
@@ -360,7 +365,7 @@ theorem st_setSlot_same (s : Sys) (k₀ : Nat) (y : Slot) (hy : y.st = (s.slot k
   · next h => rw [h.1]; exact hy
   · rfl
 
-theorem cap_none (ρ : Role) : cap .none ρ = 0 := by cases ρ <;> rfl
+theorem cap_none (ρ : Role) : cap .none ρ = 0 := rfl
 
 theorem cap_le_one (st : St) (ρ : Role) : cap st ρ ≤ 1 := by cases st <;> cases ρ <;> simp [cap]
 
@@ -404,20 +409,44 @@ theorem MInv.step_generic {w : MWorld} (hI : MInv w) {tid : Nat} {t : Thread}
     rw [← h1 k ρ']
     exact hI.slots k ρ'
 
-/-- **No status changes, no new claims.** Covers every step that touches only counters, markers,
-    buffers or nothing, every failed compare-exchange, and every loss of a claim without a status
-    change (RX giving up; a handle overwritten in its register). -/
+/-- The storage changes so that no slot admits fewer claims than before (in particular: no status
+    changes at all, or `Sent → Sendable`). -/
+def CapLe (s s' : Sys) : Prop := s'.n = s.n ∧ ∀ k ρ, cap (s.slot k).st ρ ≤ cap (s'.slot k).st ρ
+
+theorem CapLe.refl (s : Sys) : CapLe s s := ⟨rfl, fun _ _ => Nat.le_refl _⟩
+
+theorem CapLe.congr {s s' : Sys} (e : s'.slots = s.slots) : CapLe s s' :=
+  ⟨n_congr e, fun k ρ => by rw [slot_congr e]; exact Nat.le_refl _⟩
+
+theorem CapLe.set (s : Sys) (k₀ : Nat) (y : Slot) (hy : ∀ ρ, cap (s.slot k₀).st ρ ≤ cap y.st ρ) :
+    CapLe s (s.setSlot k₀ y) := by
+  refine ⟨n_setSlot _ _ _, fun k ρ => ?_⟩
+  rw [slot_setSlot]
+  split
+  · next h => rw [h.1]; exact hy ρ
+  · exact Nat.le_refl _
+
+theorem CapLe.set_same (s : Sys) (k₀ : Nat) (y : Slot) (hy : y.st = (s.slot k₀).st) :
+    CapLe s (s.setSlot k₀ y) :=
+  CapLe.set s k₀ y (fun ρ => by rw [hy]; exact Nat.le_refl _)
+
+theorem CapLe.ite {s a b : Sys} {c : Prop} [Decidable c] (h1 : CapLe s a) (h2 : CapLe s b) :
+    CapLe s (if c then a else b) := by split <;> assumption
+
+/-- **No slot admits fewer claims, no new claims.** Covers every step that touches only counters,
+    markers, buffers or nothing, every failed compare-exchange, the retry (`Sent → Sendable`), and
+    every loss of a claim without a status change (RX giving up; a handle overwritten in its
+    register). -/
 theorem MInv.step_same {w : MWorld} (hI : MInv w) {tid : Nat} {t : Thread}
-    (ht : w.threads[tid]? = some t) {s' : Sys} {t' : Thread} (hn : s'.n = w.sys.n)
-    (hst : ∀ k, (s'.slot k).st = (w.sys.slot k).st)
+    (ht : w.threads[tid]? = some t) {s' : Sys} {t' : Thread} (hc : CapLe w.sys s')
     (hr : Regs t'.regs) (hp : PcOk w.sys.n t')
     (hle : ∀ k ρ, tcount t' k ρ ≤ tcount t k ρ) :
     MInv ⟨s', w.threads.set tid t'⟩ := by
-  refine hI.step_generic ht hn hr hp ?_
+  refine hI.step_generic ht hc.1 hr hp ?_
   intro k rest h0 _ ρ
-  rw [hst k]
   have := h0 ρ
   have := hle k ρ
+  have := hc.2 k ρ
   omega
 
 /-- **One slot changes status.** Claims on other slots do not grow; for the slot itself the bound is
@@ -441,6 +470,69 @@ theorem MInv.step_set {w : MWorld} (hI : MInv w) {tid : Nat} {t : Thread}
     have hne : k ≠ k₀ := fun e => h ⟨e, hlt⟩
     have := h0 ρ
     have := hoth k ρ hne
+    omega
+
+/-! ## helpers for the per-program-counter lemmas -/
+
+/-- World after thread `tid` took the step with result `p`. -/
+@[reducible] def next (w : MWorld) (tid : Nat) (p : Sys × Thread) : MWorld := ⟨p.1, w.threads.set tid p.2⟩
+
+theorem cap_creator_pos {a : St} (h : 0 < cap a .creator) : a = .created := by
+  cases a <;> simp [cap] at h ⊢
+
+theorem cap_fut_pos {a : St} (h : 0 < cap a .fut) :
+    a = .sendable ∨ a = .sending ∨ a = .sent ∨ a = .rxBusy ∨ a = .rxDone := by
+  cases a <;> simp [cap] at h ⊢
+
+theorem cap_tx_pos {a : St} (h : 0 < cap a .tx) : a = .sending := by
+  cases a <;> simp [cap] at h ⊢
+
+theorem cap_rx_pos {a : St} (h : 0 < cap a .rx) : a = .rxBusy := by
+  cases a <;> simp [cap] at h ⊢
+
+theorem cap_reader_pos {a : St} (h : 0 < cap a .reader) : a = .rxProcessing := by
+  cases a <;> simp [cap] at h ⊢
+
+/-- The handle the operation in progress works on. -/
+theorem MInv.need {w : MWorld} (hI : MInv w) {tid : Nat} {t : Thread} (ht : w.threads[tid]? = some t)
+    {r : Nat} {ρ : Role} (hn : t.pc.needs = some (r, ρ)) :
+    ∃ h, getH t.regs r = some h ∧ roleOf h.kind = ρ := by
+  have := (hI.pcok t (mem_of_get ht)).1
+  rw [hn] at this
+  exact this
+
+theorem tcount_of_get {t : Thread} (hr : Regs t.regs) {r : Nat} {h : Hd} (e : getH t.regs r = some h)
+    (k : Nat) (ρ : Role) :
+    tcount t k ρ = pcount t.pc k ρ + (one h.slot (roleOf h.kind) k ρ + hcount (delH t.regs r) k ρ) := by
+  rw [tcount, hcount_delH_some hr e]
+
+/-- A thread with a handle in a register holds that handle's claim; hence the slot is real and its
+    status admits the claim. -/
+theorem MInv.of_get {w : MWorld} (hI : MInv w) {tid : Nat} {t : Thread} (ht : w.threads[tid]? = some t)
+    {r : Nat} {h : Hd} (e : getH t.regs r = some h) :
+    0 < cap (w.sys.slot h.slot).st (roleOf h.kind) ∧ h.slot < w.sys.n := by
+  refine hI.holder (mem_of_get ht) ?_
+  rw [tcount_of_get (hI.regs t (mem_of_get ht)) e, one_self]
+  omega
+
+/-- Replacing the handle in a register by one for the same slot and role changes no count. -/
+theorem hcount_retag {hs : List Hd} (hr : Regs hs) {r : Nat} {h : Hd} (e : getH hs r = some h)
+    (K : HK) (hK : roleOf K = roleOf h.kind) (sl : Nat) (hsl : sl = h.slot) (k : Nat) (ρ : Role) :
+    hcount (putH hs ⟨r, sl, K⟩) k ρ = hcount hs k ρ := by
+  rw [hcount_putH, hcount_delH_some hr e k ρ, hK, hsl]
+
+theorem wcount_zero {ts : List Thread} {k : Nat} {ρ : Role} (h : ∀ t ∈ ts, ¬ Holds t k ρ) :
+    wcount ts k ρ = 0 := by
+  induction ts with
+  | nil => rfl
+  | cons x xs ih =>
+    simp only [wcount, List.map_cons, List.sum_cons]
+    have hx : tcount x k ρ = 0 := by
+      have := h x List.mem_cons_self
+      rw [← tcount_pos_iff] at this
+      omega
+    have := ih (fun t ht => h t (List.mem_cons_of_mem _ ht))
+    simp only [wcount] at this
     omega
 
 end Ec.Micro
